@@ -43,6 +43,7 @@ pub enum V {
     Description,
     CFormat,
     NoSupport,
+    Uploaders,
     Path,
 }
 
@@ -179,6 +180,15 @@ pub fn value(rng: &mut Rng, v: V) -> String {
             3 => "http://www.debian.org/doc/packaging-manuals/copyright-format/1.0".to_string(),
             _ => url(rng),
         },
+        V::Uploaders => {
+            let n = 1 + rng.below(3);
+            let mut v = (0..n).map(|_| identity(rng)).collect::<Vec<_>>().join(", ");
+            // wrap-and-sort -t style trailing comma, with or without a blank after it
+            if rng.chance(1, 4) {
+                v.push_str(rng.s(&[",", ", ", " ,"]));
+            }
+            v
+        }
         V::NoSupport => rng.pick(&["Packages", "Packages", "yes", "no"]).to_string(),
         V::Path => rng.pick(&["/build/foo-1.0", "/tmp/x", "relative/dir"]).to_string(),
     }
@@ -251,7 +261,7 @@ pub const CONTROL_SOURCE: &[F] = &[
     F("Section", false, V::Word),
     F("Priority", false, V::Priority),
     F("Maintainer", false, V::Identity),
-    F("Uploaders", false, V::Identity),
+    F("Uploaders", false, V::Uploaders),
     F("Architecture", false, V::Words),
     F("Rules-Requires-Root", false, V::YesNo),
     F("Testsuite", false, V::Word),
@@ -518,7 +528,7 @@ pub fn instance(rng: &mut Rng, kind: &str) -> String {
             // the header comes first; its fields may stand in any order and comment lines may precede it
             let mut s = String::new();
             if rng.chance(1, 6) {
-                s.push_str(rng.s(&["# machine-readable copyright file\n", "#\n# see DEP-5\n"]));
+                s.push_str(rng.s(&["# machine-readable copyright file\n", "#\n# see DEP-5\n", "# c\n\n", "\n# c\n\n", "\n\n"]));
             }
             let shuffle_header = rng.chance(1, 4);
             s.push_str(&para(rng, COPYRIGHT_HEADER, shuffle_header, false));
